@@ -8,10 +8,11 @@ def gen_case(rng):
     prof = Profile(max_depth=2, clockless=True, p_unsat=0.0, p_empty_alphabet=0.0, p_value=0.15,
                    kinds={"none": 1, "bool": 3, "int": 8, "float": 8, "str": 16, "list": 8, "dict": 6, "any": 5,
                           "bytes": 3, "uuid4": 1, "datetime": 1, "date": 0, "alias": 1})
-    kind = rng.choice(("int", "int", "neg", "huge", "str", "bytes", "float"))
+    kind = rng.choice(("int", "int", "neg", "huge", "str", "bytes", "float", "falsy", "small"))
     k = {"int": rng.randint(0, 10 ** 6), "neg": -rng.randint(1, 10 ** 6), "huge": rng.getrandbits(200),
          "str": "seed-%d" % rng.randint(0, 999), "bytes": b"s%d" % rng.randint(0, 999),
-         "float": rng.random() * 1000}[kind]
+         "float": rng.random() * 1000, "falsy": rng.choice((0, 0.0, "", b"", False, -0.0)),
+         "small": rng.choice((1, 2, -1, True, 1.0, "0", b"\x00"))}[kind]
     n = rng.randint(1, 10)
     specs = []
     for _ in range(n):
@@ -71,7 +72,7 @@ def main(argv):
                 except Exception as e:  # noqa
                     vals.append({"$exc": type(e).__name__})
             passes.append(vals)
-        out.append({"case": case, "seed_kind": type(k).__name__, "specs": shown, "reprs": [repr(s) for s in schemas],
+        out.append({"case": case, "seed_kind": type(k).__name__ + (":falsy" if not k else ""), "specs": shown, "reprs": [repr(s) for s in schemas],
                     "pass1": passes[0], "pass2": passes[1]})
     json.dump(out, sys.stdout)
     return 0
